@@ -67,6 +67,7 @@ pub fn side_of_end(spec: &StreamSpec, end: usize) -> Side {
 
 impl<'a> Analysis<'a> {
     pub fn new(case: &'a Case, run: &'a RunResult) -> Self {
+        register_verbatim(case);
         let mut streams = vec![StreamInfo::default(); case.streams.len()];
         let mut conn_end_at = None;
         for (idx, st) in run.events.iter().enumerate() {
